@@ -100,7 +100,9 @@ pub fn leaf_for(builtin: &str, facets: Option<&Facets>, t: &mut Tape, violate: b
                         let hi = f.length.or(f.max_length).unwrap_or(lo as u8 + 6) as usize;
                         // (an empty text node is not kept by yaserde, for hand-written types either)
                         let lo1 = if hi >= 1 { lo.max(1) } else { lo };
-                        let n = if violate { hi + 1 + t.below(3) } else { lo1 + t.below(hi.saturating_sub(lo1) + 1) };
+                        let has_upper = f.length.is_some() || f.max_length.is_some();
+                        let too_short = violate && lo >= 2 && (!has_upper || t.flag());
+                        let n = if too_short { lo - 1 } else if violate { hi + 1 + t.below(3) } else { lo1 + t.below(hi.saturating_sub(lo1) + 1) };
                         let alphabet = ['a', 'é', 'b', '😀', 'c', 'Z', '7'];
                         let mut s: String = (0..n).map(|k| alphabet[(k + t.pos) % alphabet.len()]).collect();
                         if s.is_empty() && !violate {
@@ -193,10 +195,7 @@ pub fn numeric_text_for(builtin: &str, facets: &Facets, t: &mut Tape, violate: b
                 .flatten()
                 .filter(|v| *v >= blo && *v <= bhi)
                 .collect();
-                match cands.first() {
-                    Some(v) => v.to_string(),
-                    None => lo.to_string(),
-                }
+                if cands.is_empty() { lo.to_string() } else { cands[t.below(cands.len())].to_string() }
             } else if lo > hi {
                 lo.to_string() // empty value space: nothing valid exists; callers avoid such types
             } else {
@@ -212,7 +211,7 @@ pub fn numeric_text_for(builtin: &str, facets: &Facets, t: &mut Tape, violate: b
 pub fn violable(builtin: &str, f: &Facets) -> bool {
     let prim = expect::prim_for(builtin);
     match prim {
-        "String" => (builtin == "string" || builtin == "normalizedString") && (!f.enumeration.is_empty() || f.length.is_some() || f.max_length.is_some()),
+        "String" => (builtin == "string" || builtin == "normalizedString") && (!f.enumeration.is_empty() || f.length.is_some() || f.max_length.is_some() || f.min_length.is_some_and(|m| m >= 2)),
         "bool" | "f32" | "f64" => false,
         _ => f.min_inclusive.is_some() || f.max_inclusive.is_some() || f.min_exclusive.is_some() || f.max_exclusive.is_some(),
     }
@@ -279,6 +278,10 @@ impl<'a> Gen<'a> {
     pub fn satisfiable(&self, q: QRef) -> bool {
         let (b, chain) = self.effective_facets(q);
         let f = Self::merged(&chain);
+        // enumerations along the chain that have no value in common leave nothing
+        if f.enumeration.is_empty() && chain.iter().any(|c| !c.enumeration.is_empty()) {
+            return false;
+        }
         let prim = expect::prim_for(&b);
         match prim {
             "String" => {
@@ -320,9 +323,21 @@ impl<'a> Gen<'a> {
 
     pub fn simple_value(&mut self, q: QRef, t: &mut Tape) -> StructV {
         let (builtin, chain) = self.effective_facets(q);
-        let f = Self::merged(&chain);
+        let mut f = Self::merged(&chain);
         self.leaves_seen += 1;
-        let violate = self.violated.is_none() && self.violate_at.is_some_and(|k| self.leaves_seen > k) && violable(&builtin, &f);
+        // a derived type is the preferred place for a planted violation (facets inherited through
+        // derivation), and half of the time the violated facet is one that only an ancestor declares
+        let derived = chain.len() >= 2;
+        let mut violate = self.violated.is_none() && self.violate_at.is_some_and(|k| derived || self.leaves_seen > k) && violable(&builtin, &f);
+        if violate && derived && t.flag() {
+            let ancestors_only = Self::merged(&chain[1..]);
+            if violable(&builtin, &ancestors_only) {
+                f = ancestors_only;
+            }
+        }
+        if violate && !violable(&builtin, &f) {
+            violate = false;
+        }
         let mut leaf = if expect::prim_for(&builtin) == "String" {
             // enumerations must also respect the length facets: pick a matching one
             let mut l = leaf_for(&builtin, Some(&f), t, violate);
